@@ -135,6 +135,7 @@ macro_rules! impl_clamp_hwb {
                 + crate::num::Clamp
                 + crate::num::PartialCmp
                 + core::ops::Add<Output = T>
+                + core::ops::Sub<Output = T>
                 + core::ops::DivAssign
                 + Clone,
             T::Mask: crate::bool_mask::Select<T>,
@@ -150,6 +151,14 @@ macro_rules! impl_clamp_hwb {
                 whiteness /= divisor.clone();
                 blackness /= divisor;
 
+                // Rounding in the divisions can leave the sum one step above the
+                // maximum. The excess is then taken from the larger component.
+                let sum = whiteness.clone() + blackness.clone();
+                let reduced_whiteness = whiteness.gt_eq(&blackness).select(T::max_intensity() - blackness.clone(), whiteness.clone());
+                let reduced_blackness = whiteness.gt_eq(&blackness).select(blackness.clone(), T::max_intensity() - whiteness.clone());
+                let whiteness = sum.gt(&T::max_intensity()).select(reduced_whiteness, whiteness);
+                let blackness = sum.gt(&T::max_intensity()).select(reduced_blackness, blackness);
+
                 Self {hue: self.hue, whiteness, blackness $(, $phantom: self.$phantom)?}
             }
         }
@@ -160,6 +169,7 @@ macro_rules! impl_clamp_hwb {
                 + crate::num::ClampAssign
                 + crate::num::PartialCmp
                 + core::ops::Add<Output = T>
+                + core::ops::Sub<Output = T>
                 + core::ops::DivAssign
                 + Clone,
             T::Mask: crate::bool_mask::Select<T>,
@@ -174,6 +184,14 @@ macro_rules! impl_clamp_hwb {
                 let divisor = sum.gt(&T::max_intensity()).select(sum, T::one());
                 self.whiteness /= divisor.clone();
                 self.blackness /= divisor;
+
+                // Rounding in the divisions can leave the sum one step above the
+                // maximum. The excess is then taken from the larger component.
+                let sum = self.whiteness.clone() + self.blackness.clone();
+                let reduced_whiteness = self.whiteness.gt_eq(&self.blackness).select(T::max_intensity() - self.blackness.clone(), self.whiteness.clone());
+                let reduced_blackness = self.whiteness.gt_eq(&self.blackness).select(self.blackness.clone(), T::max_intensity() - self.whiteness.clone());
+                self.whiteness = sum.gt(&T::max_intensity()).select(reduced_whiteness, self.whiteness.clone());
+                self.blackness = sum.gt(&T::max_intensity()).select(reduced_blackness, self.blackness.clone());
             }
         }
     };
